@@ -184,7 +184,7 @@ Section Sem.
         | EIndex t k _ => bind (eval t) (fun tr => bind (eval k) (fun kr =>
             bind (lift (w_get w (valof tr) (valof kr))) (fun lval =>
             opasg op lval (eval v) (fun x' => lift (w_set w (valof tr) (valof kr) x')))))
-        | _ => bind (eval v) (fun r => ret (ov (valof r)))
+        | _ => bind (eval v) (fun _ => ret (ov (VNum 0)))   (* not a valid target: an early SyntaxError in JavaScript, never evaluated *)
         end
     | EIf c a b => bind (eval c) (fun r =>
         if truthy (valof r) then bind (eval a) (fun r2 => ret (ov (valof r2)))
